@@ -81,7 +81,17 @@ def resolve(path, bgzip, off):
         return f.readline().decode().rstrip("\n")
 
 
-def judge(res, g, setname, recs, bgzip, use_outind, scratch, big=False):
+HIST = []  # earlier sort calls of this process: a failure may depend on them
+CTX = {"n": 0, "stop": None, "spec": None, "tier": None}
+
+
+class _Stop(Exception):
+    pass
+
+
+def judge(res, g, setname, recs, bgzip, use_outind, scratch, big=False, record_history=True):
+    if record_history and CTX["stop"] is not None and CTX["n"] >= CTX["stop"]:
+        raise _Stop()
     gfa_path = os.path.join(scratch, "g.gfa")
     fw.write_text(gfa_path, g.text())
     gaf = os.path.join(scratch, "in.gaf")
@@ -98,6 +108,11 @@ def judge(res, g, setname, recs, bgzip, use_outind, scratch, big=False):
     if big:
         case["records"] = [rgfa.Rec.parse(l).line() for l in case["records"][:40]]
         case["padded_to_bytes"] = 200_000
+    if record_history:
+        # the failing call is identified by its position in this shard's deterministic call sequence, so that a replay
+        # can re-create everything the process did before it (state leaking between calls)
+        CTX["n"] += 1
+        case["call_sequence"] = {"spec": CTX["spec"], "tier": CTX["tier"], "index": CTX["n"]}
     where = f"[{setname}, {'bgzip' if bgzip else 'plain'}{', >64KiB' if big else ''}, {'--outind' if use_outind else 'default .gsi'}]"
     if out.kind != "ok":
         res.fail(f"C10/sort-failed:{out.sig()}", f"{where} sort does not complete: {out.brief()}", case)
@@ -146,6 +161,12 @@ def judge(res, g, setname, recs, bgzip, use_outind, scratch, big=False):
 
 def run_shard(spec, tier, scratch):
     res = fw.ShardResult()
+    CTX.update(n=0, stop=None, spec=spec, tier=tier)
+    _run(res, spec, tier, scratch)
+    return res
+
+
+def _run(res, spec, tier, scratch):
     g, chains = c09.build(spec["nchrom"])
     sets = record_sets(g, chains, bounds(tier)["max_steps"])
     for setname, recs in sets:
@@ -172,5 +193,15 @@ def replay(case, scratch):
     big = "padded_to_bytes" in case
     if big:
         recs = vi.pad_records(recs, case["padded_to_bytes"])
-    judge(res, g, case.get("set", "replay"), recs, case["bgzip"], case["outind"], scratch, big=big)
+    cs = case.get("call_sequence")
+    if cs and cs.get("spec"):
+        # re-run the shard's calls up to and including the failing one; only that call's verdict counts
+        CTX.update(n=0, stop=cs["index"], spec=cs["spec"], tier=cs["tier"])
+        tmp = fw.ShardResult()
+        try:
+            _run(tmp, cs["spec"], cs["tier"], scratch)
+        except _Stop:
+            pass
+        return [f for f in tmp.failures if f["case"].get("call_sequence", {}).get("index") == cs["index"]]
+    judge(res, g, case.get("set", "replay"), recs, case["bgzip"], case["outind"], scratch, big=big, record_history=False)
     return res.failures
